@@ -72,6 +72,7 @@ def writer_table(ctx, slot: str):
     cols = M.list_columns(LISTS[slot])
     st: Dict[str, Tuple[ast.AST, Optional[str]]] = {c: (ast.Name(id=c, ctx=ast.Load()), None) for c in cols}
     problems = []
+    float_cols = {f for f, (dt, _) in _item_fields_of_list(ctx, LISTS[slot]).items() if str(dt).startswith("float")}
 
     def cur_env():
         return {c: e for c, (e, _) in st.items()}
@@ -101,6 +102,13 @@ def writer_table(ctx, slot: str):
             old = st.get(op.name, (ast.Name(id=op.name, ctx=ast.Load()), None))
             st[op.name] = (ast.BinOp(left=old[0], op=op.op, right=rewrite(op.args)), old[1])
         elif op.kind == "store":
+            # operands already truncated to int: int(a) + int(b) differs from int(a + b) by up to 1, on top of the
+            # truncation of the result — the written time can be 2 ms off
+            used = {FO.col_ref(x, "df") for x in ast.walk(op.args)} - {None}
+            trunc = sorted(u for u in used if u in st and st[u][1] in ("int", "<class 'int'>") and u in float_cols)
+            if len(trunc) >= 2:
+                problems.append(f"'{op.name}' is computed from {trunc} after they were truncated to int: the error of the written "
+                                f"value can reach 2 ms (the format's resolution is 1 ms; cast last)")
             st[op.name] = (rewrite(op.args), None)
         elif op.kind == "call":
             c = op.args
@@ -524,7 +532,7 @@ def rule_r3(ctx) -> List[R.Inst]:
         file = M.mods[wfn.mod].rel
         key = f"{slot}:keys"
         if em is None or probs:
-            insts.append((R.viol if any("KeyError" in p or "does not have" in p for p in probs) else R.undec)(
+            insts.append((R.viol if any("KeyError" in p or "does not have" in p or "truncated to int" in p for p in probs) else R.undec)(
                 rid, key, file, wfn.node.lineno, "; ".join(probs) or "to_dict('records') not found",
                 construct="; ".join(probs)))
             continue
